@@ -9,6 +9,7 @@ EXTENDS BookProps
 
 CONSTANTS
   Tick,        \* tick size of the book
+  NLevels,     \* number of published price levels
   Trading0,    \* initial trading flag
   Ops,         \* subset of the action names enabled in this configuration
   Dts,         \* clock advances applied before a call (subset of Nat)
@@ -27,7 +28,7 @@ VARIABLES b, last, n
 vars == <<b, last, n>>
 
 Init ==
-  /\ b = NewBook(0, Tick, Trading0)
+  /\ b = NewBook(0, Tick, Trading0, NLevels)
   /\ last = [op |-> "init"]
   /\ n = 0
 
@@ -101,33 +102,36 @@ Spec == Init /\ [][Next]_vars
 
 ---------------------------------------------------------------------------
 Constr == Discipline => DisciplineOK(b)
+ConstrNext == Discipline => DisciplineOK(b')
+\* TLC evaluates invariants also on states that fail the CONSTRAINT (it only does not
+\* explore them further), so every clause is explicitly restricted to states of the model.
 
 \* individually named invariants / action properties for TLC
-Inv_C01_QueueSorted     == C01_QueueSorted(b)
-Inv_C02_ViewsAgree      == C02_ViewsAgree(b)
-Inv_C02_ViewsConsistent == C02_ViewsConsistent(b)
-Inv_C02_NotCrossed      == C02_NotCrossed(b)
-Inv_C03_WellFormed      == C03_WellFormed(b)
-Inv_C03_Conservation    == C03_Conservation(b)
-Inv_C03_Counter         == C03_Counter(b)
-Inv_C04_State           == C04_State(b)
-Inv_C12_OnGrid          == C12_OnGrid(b)
-Inv_C12_LevelsAccount   == C12_LevelsAccount(b)
+Inv_C01_QueueSorted     == Constr => C01_QueueSorted(b)
+Inv_C02_ViewsAgree      == Constr => C02_ViewsAgree(b)
+Inv_C02_ViewsConsistent == Constr => C02_ViewsConsistent(b)
+Inv_C02_NotCrossed      == Constr => C02_NotCrossed(b)
+Inv_C03_WellFormed      == Constr => C03_WellFormed(b)
+Inv_C03_Conservation    == Constr => C03_Conservation(b)
+Inv_C03_Counter         == Constr => C03_Counter(b)
+Inv_C04_State           == Constr => C04_State(b)
+Inv_C12_OnGrid          == Constr => C12_OnGrid(b)
+Inv_C12_LevelsAccount   == Constr => C12_LevelsAccount(b)
 
 \* old book with the clock already advanced, as the operation saw it
 Pre(lbl) == PreOf(b, lbl)
 
-Act_C01_TradesTakeHead  == [][C01_TradesTakeHead(Pre(last'), b', last')]_vars
-Act_C01_Exhaustive      == [][C01_Exhaustive(Pre(last'), b', last')]_vars
-Act_C01_RestsLast       == [][C01_RestsLast(Pre(last'), b', last')]_vars
-Act_C03_AppendOnly      == [][C03_AppendOnly(b, b')]_vars
-Act_C03_Admitted        == [][C03_NewTradesAdmitted(b, b')]_vars
-Act_C04_Transitions     == [][C04_Transitions(b, b')]_vars
-Act_C04_NoOps           == [][C04_NoOps(Pre(last'), b', last')]_vars
-Act_C06_Modify          == [][C06_Modify(Pre(last'), b', last')]_vars
-Act_C12_RejectedCreate  == [][C12_RejectedCreate(Pre(last'), b', last')]_vars
-Act_C13_NoTradesOff     == [][C13_NoTradesWhileOff(Pre(last'), b', last')]_vars
-Act_C13_MarketRejected  == [][C13_MarketRejected(Pre(last'), b', last')]_vars
-Act_C13_ToggleStutters  == [][C13_ToggleStutters(b, b', last')]_vars
+Act_C01_TradesTakeHead  == [][ConstrNext => C01_TradesTakeHead(Pre(last'), b', last')]_vars
+Act_C01_Exhaustive      == [][ConstrNext => C01_Exhaustive(Pre(last'), b', last')]_vars
+Act_C01_RestsLast       == [][ConstrNext => C01_RestsLast(Pre(last'), b', last')]_vars
+Act_C03_AppendOnly      == [][ConstrNext => C03_AppendOnly(b, b')]_vars
+Act_C03_Admitted        == [][ConstrNext => C03_NewTradesAdmitted(b, b')]_vars
+Act_C04_Transitions     == [][ConstrNext => C04_Transitions(b, b')]_vars
+Act_C04_NoOps           == [][ConstrNext => C04_NoOps(Pre(last'), b', last')]_vars
+Act_C06_Modify          == [][ConstrNext => C06_Modify(Pre(last'), b', last')]_vars
+Act_C12_RejectedCreate  == [][ConstrNext => C12_RejectedCreate(Pre(last'), b', last')]_vars
+Act_C13_NoTradesOff     == [][ConstrNext => C13_NoTradesWhileOff(Pre(last'), b', last')]_vars
+Act_C13_MarketRejected  == [][ConstrNext => C13_MarketRejected(Pre(last'), b', last')]_vars
+Act_C13_ToggleStutters  == [][ConstrNext => C13_ToggleStutters(b, b', last')]_vars
 
 =============================================================================
